@@ -265,6 +265,58 @@ class ClassHarness:
             else:
                 raise Unsupported(f"field kind {kind}")
 
+    def run_init(self, ctx):
+        """the constructor: the real __init__ with arbitrary arguments yields an object coupled with the spec machine's initial state"""
+        c = self.c
+        w = self.w = ClassWorld(self)
+        it = Interp(self.loader, ctx, w)
+        from .values import Native
+        it.externals["threading.RLock"] = Native("RLock", lambda it_, a, k: Opaque("lock", "self.lock", reentrant=True))
+        self.modname = c.file[:-3].replace("/", ".")
+        cls = None
+        for part in c.cls.split("."):
+            cls = it.module_get(self.modname, part) if cls is None else it.get_attr(cls, part)
+        self.cls = cls
+        uid = f"{c.uid}.__init__"
+        args = {n: self.make_arg(it, ctx, n, k) if k != "callback" else Opaque("callback", n) for n, k in c.init.get("args", {}).items()}
+        w.side = "impl"
+        n0 = len(getattr(w, "events", []))
+        try:
+            o = self.obj = it.call(cls, list(args.values()), {})
+        except PyExc as e:
+            self.record(ctx, uid + "/no-exception", False, detail=repr(e.value))
+            return
+        smod, scls = c.spec.split(":")
+        s = self.s = Obj(it.module_get(smod, scls))
+        for f, v in c.init.get("spec", {}).items():
+            if isinstance(v, str) and v.startswith("arg:"):
+                s.fields[f] = args[v[4:]]
+            elif isinstance(v, str) and v.startswith("field:"):
+                s.fields[f] = o.fields.get(v[6:])
+            elif v == []:
+                s.fields[f] = ListObj([])
+            else:
+                s.fields[f] = v
+        missing = [f for f in c.fields if f not in o.fields]
+        self.record(ctx, uid + "/sets-every-field-of-the-contract", not missing, detail=f"missing: {missing}")
+        if missing:
+            return
+        for f, kind in c.fields.items():
+            # a list the constructor built is the (empty) sequence of the contract
+            if kind.startswith("reflist:") and isinstance(o.fields[f], ListObj) and not o.fields[f].symbolic and not o.fields[f].items:
+                o.fields[f] = ListObj(term=z3.Empty(smt.SeqVal), elem="ref:" + kind[8:])
+        for f, kind in c.spec_fields.items():
+            if kind.startswith("reflist:") and isinstance(s.fields.get(f), ListObj) and not s.fields[f].symbolic and not s.fields[f].items:
+                s.fields[f] = ListObj(term=z3.Empty(smt.SeqVal), elem="ref:" + kind[8:])
+        self.record(ctx, uid + "/establishes-the-coupling-invariant-with-the-initial-state-of-the-spec-machine", self.inv_term(it, o.fields, s.fields),
+                    detail=f"fields after __init__: { {k: v for k, v in o.fields.items() if k != 'lock'} }")
+        evs = getattr(w, "events", [])[n0:]
+        self.record(ctx, uid + "/calls-nothing", not evs, detail=f"{evs}")
+        stores = c.init.get("stores", {})
+        if stores:
+            bad = [f for f, a in stores.items() if o.fields.get(f) is not args[a]]
+            self.record(ctx, uid + "/keeps-the-very-arguments-it-was-given", not bad, detail=f"fields that do not hold their argument: {bad}")
+
     def run_method(self, ctx, mname, m):
         c = self.c
         w = self.w = ClassWorld(self)
@@ -362,6 +414,9 @@ class ClassHarness:
                 self.functions[f"{c.file}::{q}"] = self.loader.sha(c.file, q)
             for f2, c2 in getattr(c, "also", []):
                 self.functions[f"{f2}::{c2}"] = self.loader.sha(f2, c2)
+            if getattr(c, "init", None):
+                for p in explore(self.run_init):
+                    self.results.extend(p.results)
             for mname, m in c.methods.items():
                 paths = explore(lambda ctx, _n=mname, _m=m: self.run_method(ctx, _n, _m))
                 for p in paths:
